@@ -124,6 +124,9 @@ def cases(tier, seed):
                 yield ['realorder', list(perm), [N, v]]
     for N in (1, 2):
         yield ['realorder', ['A', 'B', 'C'], [N, 0]]
+    # worlds that are not small: many layers, -j larger than their number
+    yield ['bigworld', 12, 6, [2, 5, 20]]
+    yield ['bigworld', 3, 60, [2, 7]]
     # layer names that are not plain identifiers, in children (shared with C03)
     for pair in (['a.b', 'a_b'], ['x[y]', 'p+q'], ['a|b', 'ab'], ['vtw.tests:DB', 'xvtw.tests:DB']):
         for mode in ('j2', 'j3_layer'):
@@ -459,38 +462,47 @@ def pre_cost(cur, chosen, enabled):
     return 0
 
 
+def compare_with_sequential(spec, label, Ns=(1, 2, 3, 4), vss=([], ['-v'], ['-vv'])):
+    viol = []
+    evals = 0
+    base = runrt.run_world(spec, [], probe=False)
+    evals += 1
+    bt = ow.Truth(spec, base)
+    for N in Ns:
+        for v in vss:
+            r = runrt.run_world(spec, ['-j%d' % N] + v, probe=False)
+            evals += 1
+            t = ow.Truth(spec, r)
+            sig = {'N': min(N, 9), 'v': len(v)}
+            d = '%s -j%d %s: ' % (label, N, v)
+            if r.escaped:
+                viol.append(('run_aborted', sig, d + str(r.escaped_tb)))
+                continue
+            if t.runs != bt.runs:
+                viol.append(('executed_tests_differ', sig, d + '%s vs sequential %s' % (dict(t.runs), dict(bt.runs))))
+            if (r.failed, r.ran, sorted(r.failures), sorted(r.errors)) != (base.failed, base.ran, sorted(base.failures), sorted(base.errors)):
+                viol.append(('verdict_or_lists_differ', sig, d + 'failed/ran/failures/errors %s vs sequential %s' % ((r.failed, r.ran, sorted(r.failures), sorted(r.errors)), (base.failed, base.ran, sorted(base.failures), sorted(base.errors)))))
+            if r.live_max > N:
+                viol.append(('more_than_N_children_alive', sig, d + str(r.live_max)))
+            hs = runrt.HDR_RE.findall(r.text)
+            hb = runrt.HDR_RE.findall(base.text)
+            if [x for x in hs if x != '.EmptyLayer'] != hb:
+                viol.append(('layer_blocks_out_of_order', sig, d + '%s vs %s' % (hs, hb)))
+            # what the tests printed stays inside its layer's block
+            tb, tj = _tokens_by_section(base.text), _tokens_by_section(r.text)
+            if tb != tj:
+                viol.append(('test_output_not_in_its_layer_block', sig, d + 'tokens per block %s, sequential %s' % (tj, tb)))
+    return evals, viol
+
+
 def run_worlds(shape, block):
     viol = []
     evals = 0
     for sc in block:
         spec = ow.build(shape, sc)
-        base = runrt.run_world(spec, [], probe=False)
-        evals += 1
-        bt = ow.Truth(spec, base)
-        for N in (1, 2, 3, 4):
-            for v in ([], ['-v'], ['-vv']):
-                r = runrt.run_world(spec, ['-j%d' % N] + v, probe=False)
-                evals += 1
-                t = ow.Truth(spec, r)
-                sig = {'N': N, 'v': len(v)}
-                d = 'shape %s scripts %s -j%d %s: ' % (shape, sc, N, v)
-                if r.escaped:
-                    viol.append(('run_aborted', sig, d + str(r.escaped_tb)))
-                    continue
-                if t.runs != bt.runs:
-                    viol.append(('executed_tests_differ', sig, d + '%s vs sequential %s' % (dict(t.runs), dict(bt.runs))))
-                if (r.failed, r.ran, sorted(r.failures), sorted(r.errors)) != (base.failed, base.ran, sorted(base.failures), sorted(base.errors)):
-                    viol.append(('verdict_or_lists_differ', sig, d + 'failed/ran/failures/errors %s vs sequential %s' % ((r.failed, r.ran, sorted(r.failures), sorted(r.errors)), (base.failed, base.ran, sorted(base.failures), sorted(base.errors)))))
-                if r.live_max > N:
-                    viol.append(('more_than_N_children_alive', sig, d + str(r.live_max)))
-                hs = runrt.HDR_RE.findall(r.text)
-                hb = runrt.HDR_RE.findall(base.text)
-                if [x for x in hs if x != '.EmptyLayer'] != hb:
-                    viol.append(('layer_blocks_out_of_order', sig, d + '%s vs %s' % (hs, hb)))
-                # what the tests printed stays inside its layer's block
-                tb, tj = _tokens_by_section(base.text), _tokens_by_section(r.text)
-                if tb != tj:
-                    viol.append(('test_output_not_in_its_layer_block', sig, d + 'tokens per block %s, sequential %s' % (tj, tb)))
+        e, vs = compare_with_sequential(spec, 'shape %s scripts %s' % (shape, sc))
+        evals += e
+        viol += vs
         # --shuffle: every child must run its layer in the order the
         # sequential run uses (same seed)
         sh = ['--shuffle', '--shuffle-seed', '5']
@@ -616,6 +628,11 @@ def run_case(case):
         viol = [{'clause': c, 'sig': s, 'detail': d} for c, s, d in vs]
         return {'evals': evals, 'nontrivial': evals, 'violations': viol, 'outcome': 'realorder', 'nogate': True,
                 'counters': {'real_process_runs': evals}}
+    if case[0] == 'bigworld':
+        spec = ow.big_spec(nlayers=case[1], ntests=case[2])
+        evals, vs = compare_with_sequential(spec, 'big world %dx%d' % (case[1], case[2]), Ns=case[3], vss=([], ['-vv']))
+        viol = [{'clause': c, 'sig': sg, 'detail': d[:3000]} for c, sg, d in vs[:10]]
+        return {'evals': evals, 'nontrivial': evals, 'violations': viol, 'outcome': 'bigworld'}
     if case[0] == 'names':
         from vt.props import c03
         viol = c03.run_names_case(case[1], case[2])
